@@ -37,7 +37,7 @@ def run(ctx):
         ctx.floor("nonce-guard", g, 4, cfg)
         ctx.floor("rekey-reserved-nonce", r, 1, cfg)
         n_impl = nonce.check_rekey_not_overridden(ctx, cfg)
-        ctx.floor("rekey-not-overridden", n_impl, 2, cfg)
+        ctx.floor("rekey-not-overridden", n_impl, 1, cfg)
         nw = nonce.check_n_writers(ctx, cfg)
         ctx.floor("n-writers", nw, 5, cfg)
         nc = nonce.check_n_setter_callers(ctx, cfg)
